@@ -6,6 +6,7 @@ import (
 	"go/types"
 	"os"
 	"path/filepath"
+	"regexp"
 	"sort"
 	"strings"
 
@@ -205,6 +206,15 @@ func propC07(c *Ctx) {
 						k2 := owner + "/" + o.Kind + ":" + o.Desc
 						if w2, ok2 := assumed[k2]; ok2 {
 							why, ok, key = w2, true, k2
+						}
+						if !ok {
+							// the helper numbers its parameters differently from its owner
+							n2 := anonParams(k2)
+							for ak, aw := range assumed {
+								if strings.HasPrefix(ak, owner+"/") && anonParams(ak) == n2 {
+									why, ok, key = aw, true, ak
+								}
+							}
 						}
 					}
 				}
@@ -603,3 +613,8 @@ func mentionsPacketParam(fn *ssa.Function, rq LinForm) bool {
 	}
 	return false
 }
+
+var anonParamRe = regexp.MustCompile(`\$\d+`)
+
+// anonParams replaces parameter references by a placeholder.
+func anonParams(s string) string { return anonParamRe.ReplaceAllString(s, "$$_") }
